@@ -254,14 +254,17 @@ class JSONPointer:
         # section 2.5.
         # `unicode-escape` decodes Latin-1 bytes, so non-ASCII characters are
         # turned into escape sequences first and come back unchanged.
-        return (
-            codecs.decode(
-                s.replace("\\/", "/").encode("ascii", "backslashreplace"),
-                "unicode-escape",
+        try:
+            return (
+                codecs.decode(
+                    s.replace("\\/", "/").encode("ascii", "backslashreplace"),
+                    "unicode-escape",
+                )
+                .encode("utf-16", "surrogatepass")
+                .decode("utf-16")
             )
-            .encode("utf-16", "surrogatepass")
-            .decode("utf-16")
-        )
+        except UnicodeError as err:
+            raise JSONPointerError(f"invalid escape sequence: {err}") from None
 
     @classmethod
     def from_match(
@@ -317,7 +320,10 @@ class JSONPointer:
                 for p in _parts
             )
 
-        __parts = tuple(_parts)
+        try:
+            __parts = tuple(_parts)
+        except UnicodeError as err:
+            raise JSONPointerError(f"invalid escape sequence: {err}") from None
 
         if __parts:
             pointer = cls._encode(__parts)
